@@ -1,0 +1,101 @@
+//! Seams for an external deterministic simulator (cargo feature
+//! `verif_hooks`, off by default).
+//!
+//! Nothing in here knows about a particular simulator. A harness installs a
+//! table of plain function pointers once per process with [`install`]; while
+//! no table is installed, or while the table's `active` function answers
+//! `false` for the calling thread, every hook is a no-op and the library
+//! behaves exactly as without the feature.
+
+use once_cell::sync::OnceCell;
+use std::{
+  sync::{Mutex, MutexGuard, TryLockError},
+  task::Context,
+  time::Instant,
+};
+
+/// Sites at which the library hands control to the simulator.
+#[derive(Clone, Copy, Debug, PartialEq, Eq, Hash)]
+pub enum Site {
+  /// in front of the lock acquisition of a `MutArc`
+  Lock,
+  /// `StatusFuture::poll`, between the closed-flag check and the waker
+  /// registration
+  StatusCheckRegister,
+}
+
+pub struct Hooks {
+  /// is the calling thread run by the simulator?
+  pub active: fn() -> bool,
+  /// a scheduling point; `addr` identifies the shared cell (0 if none)
+  pub yield_point: fn(site: Site, addr: usize),
+  /// `try_lock` on the cell at `addr` failed: do not return before some
+  /// other simulated thread had a chance to run.
+  pub lock_contended: fn(addr: usize),
+  /// the virtual wall clock, if the simulator has one
+  pub now: fn() -> Option<Instant>,
+  /// drive `poll` until it answers `true`, parking the *simulated* thread
+  /// (not the OS thread's executor) between polls.
+  pub block_on: fn(poll: &mut dyn FnMut(&mut Context<'_>) -> bool),
+}
+
+static HOOKS: OnceCell<Hooks> = OnceCell::new();
+
+/// Install the hook table; returns `false` if one was installed already.
+pub fn install(hooks: Hooks) -> bool {
+  HOOKS.set(hooks).is_ok()
+}
+
+#[inline]
+fn hooks() -> Option<&'static Hooks> {
+  match HOOKS.get() {
+    Some(h) if (h.active)() => Some(h),
+    _ => None,
+  }
+}
+
+#[inline]
+pub fn active() -> bool {
+  hooks().is_some()
+}
+
+/// Acquire `m` through the simulator: a scheduling point, then `try_lock`;
+/// on contention tell the simulator and retry. `None` means "no simulator on
+/// this thread" (or a poisoned mutex): the caller falls through to the
+/// ordinary `lock().unwrap()`.
+pub fn lock<T>(m: &Mutex<T>) -> Option<MutexGuard<'_, T>> {
+  let h = hooks()?;
+  let addr = m as *const Mutex<T> as *const () as usize;
+  loop {
+    (h.yield_point)(Site::Lock, addr);
+    match m.try_lock() {
+      Ok(g) => return Some(g),
+      Err(TryLockError::Poisoned(_)) => return None,
+      Err(TryLockError::WouldBlock) => (h.lock_contended)(addr),
+    }
+  }
+}
+
+#[inline]
+pub fn yield_point(site: Site) {
+  if let Some(h) = hooks() {
+    (h.yield_point)(site, 0)
+  }
+}
+
+#[inline]
+pub fn now() -> Option<Instant> {
+  hooks().and_then(|h| (h.now)())
+}
+
+/// `true` if the simulator drove `poll` to completion, `false` if no
+/// simulator is active on this thread (nothing was polled).
+pub fn block_on(poll: &mut dyn FnMut(&mut Context<'_>) -> bool) -> bool {
+  match hooks() {
+    Some(h) => {
+      (h.block_on)(poll);
+      true
+    }
+    None => false,
+  }
+}
